@@ -66,12 +66,14 @@ func NewSession(o SessionOpts) *Session {
 	cfg.Flood = o.Flood
 	cfg.PingFreq = o.PingFreq
 	// Config.Timeout only bounds the dial ("0 = wait indefinitely"); nothing any property states depends on it, so
-	// it is drawn per session: the default (1m), 0 and 5m
-	switch sessionRand().Intn(4) {
+	// it is drawn per session: the default (1m), 0, 5m and 30ms
+	switch sessionRand().Intn(6) {
 	case 0:
 		cfg.Timeout = 0
 	case 1:
 		cfg.Timeout = 5 * time.Minute
+	case 2:
+		cfg.Timeout = 30 * time.Millisecond // (the in-memory dial takes no time)
 	}
 	if o.Mutate != nil {
 		o.Mutate(cfg)
